@@ -13,6 +13,8 @@ pub struct GenCtx {
     pub max_len: usize,
     /// allow the occasional large string / collection (multi-byte counts)
     pub allow_large: bool,
+    /// may pick transient constructors of enums (values whose encoding must fail with the dedicated error)
+    pub transient_ctors: bool,
 }
 
 impl Default for GenCtx {
@@ -31,6 +33,7 @@ impl Default for GenCtx {
             max_depth: 5,
             max_len: 6,
             allow_large: true,
+            transient_ctors: false,
         }
     }
 }
@@ -242,6 +245,7 @@ pub fn gen_val(ty: &Ty, rng: &mut Rng, ctx: &GenCtx) -> Val {
 fn gen(ty: &Ty, rng: &mut Rng, ctx: &GenCtx, depth: usize) -> Val {
     match ty {
         Ty::Named(n) => gen(&resolve(n), rng, ctx, depth),
+        Ty::VarU32 => Val::U(uint(rng, 32)),
         Ty::U8 => Val::U(uint(rng, 8)),
         Ty::U16 => Val::U(uint(rng, 16)),
         Ty::U32 => Val::U(uint(rng, 32)),
@@ -409,7 +413,7 @@ fn gen(ty: &Ty, rng: &mut Rng, ctx: &GenCtx, depth: usize) -> Val {
         Ty::Record(schema) => Val::Rec(schema.fields.iter().map(|f| gen(&f.ty, rng, ctx, depth + 1)).collect()),
         Ty::Enum(schema) => {
             let candidates: Vec<usize> =
-                (0..schema.variants.len()).filter(|i| !schema.variants[*i].transient).collect();
+                (0..schema.variants.len()).filter(|i| ctx.transient_ctors || !schema.variants[*i].transient).collect();
             assert!(!candidates.is_empty(), "enum {} has only transient constructors", schema.name);
             let pick = if depth >= ctx.max_depth {
                 // the variant that recurses least
